@@ -19,10 +19,14 @@ ALPHABET = [
     "vms=vm1", "vms=vm1,vm2", "nets=net1,net2", "only_nets=net1", "no_nets=net0", "file_contents=x,y", "dry_run=yes",
     "default_only_vm1=Fedora", "default_only=leaves", "default_only_vm2=Win7",
     "foo", "=x", "vms=vm9", "only_vm4=X", "only_vm1x=CentOS", "only_netsx=net1",
+    # primary test sets joined to another name by each operator (single dot = immediately followed by)
+    "only=leaves.quicktest", "only=minimal.quicktest", "no=minimal.quicktest", "only=all.quicktest", "only=normal.nongui.quicktest",
+    "only=leaves..tutorial1", "only=leaves.quicktest,normal.nongui.quicktest",
 ]
 QUICK_ALPHABET = ["only=tutorial1", "only=normal", "only=tutorial2..names", "only=names,files", "no=files",
                   "only_vm1=CentOS", "only_vm1=Linux", "only_vm1=", "no_vm2=Win7", "vms=vm1", "nets=net1,net2", "only_nets=net1", "file_contents=x,y",
-                  "default_only_vm1=Fedora", "default_only=leaves", "foo", "vms=vm9", "only_vm4=X", "only_vm1x=CentOS"]
+                  "default_only_vm1=Fedora", "default_only=leaves", "foo", "vms=vm9", "only_vm4=X", "only_vm1x=CentOS",
+                  "only=leaves.quicktest", "no=minimal.quicktest", "only=all.quicktest"]
 
 
 def match_restriction(name: str, restr: str) -> bool:
